@@ -906,6 +906,33 @@ def _convert_job(c):
     return r
 
 
+def _convert_typed_job(c):
+    """one configuration with an integer output type, several channels, dither on or off, either layout: every channel of the typed
+    run must be the float64-output run of the same configuration (same engine, same internal samples) rounded to that type"""
+    from checks import _signal as S
+    import numpy as np
+    S.RUN_TIMEOUT = 150
+    try:
+        ch, ot = c["ch"], c["otype"]
+        ratio = float(c["ir"]) / float(c["orr"])
+        n_out = 3000
+        N = int(n_out * ratio) + 64
+        k = np.arange(N, dtype=float)
+        X = np.zeros((N, ch))
+        for cc in range(ch):
+            X[:, cc] = 0.45 * np.sin(math.pi * (0.11 + 0.07 * cc) * min(1.0, 1.0 / ratio) * k + cc)
+        info, y = S.run(c, X.reshape(-1), ch=ch)
+        info2, yr = S.run(dict(c, otype=1, ioflags=8), X.reshape(-1), ch=ch)
+        m = min(len(y), len(yr)) // ch
+        fs = {2: 2.0 ** 31, 3: 32768.0}[ot & 3]
+        yi = y[:m * ch].astype(np.float64).reshape(-1, ch) / fs
+        yf = yr[:m * ch].reshape(-1, ch)
+        err = np.abs(yi - yf).max(axis=0) * fs if m else np.zeros(ch)
+        return {"cfg": c, "engine": info["engine"], "frames": [len(y) // ch, len(yr) // ch], "err_lsb": [float(e) for e in err]}
+    except Exception as ex:
+        return {"cfg": c, "error": repr(ex)[:300]}
+
+
 def stage_converts(ctx, n):
     """accepted => converts correctly (the property's observe_at: 'behaviour of the created object under C01 probes'): a tone at a fifth
     of the lower Nyquist limit, half of full scale, through configurations drawn over the WHOLE documented ranges rather than the
@@ -949,6 +976,36 @@ def stage_converts(ctx, n):
                       % (r["f_in"], r["gain_db"], -resid_db, S.cfg_label(c), r.get("kinds")), {"stage": "converts", "cfg": c, "result": {k: v for k, v in r.items() if k != "cfg"}})
 
 
+def stage_converts_typed(ctx, n):
+    """accepted => converts correctly, for the I/O spec too: integer output types x 2-3 channels x dither on / off x interleaved / split
+    x either engine precision"""
+    from checks import _signal as S
+    rng = ctx.rng
+    jobs = []
+    for i in range(n):
+        ir, orr = rng.choice([(44100, 48000), (48000, 44100), (2, 1), (1, 2), (3, 2), (1, 1), (1.7320508, 1), (8000, 44100)])
+        ot = rng.choice([2, 3])
+        c = S.mkcfg(ir, orr, recipe=rng.choice([1, 4, 6, 6, 4]), qflags=rng.choice([0, 0, 16]), simd=rng.below(2), ch=rng.choice([2, 2, 3]),
+                    itype=1, otype=ot, ioflags=rng.choice([8, 8, 0]) if ot == 3 else 8, split=rng.choice([0, 0, 2, 3]))
+        jobs.append(c)
+    for r in S.pool_map(_convert_typed_job, jobs):
+        ctx.count("evaluations"); ctx.count("converts_typed_probes")
+        c = r["cfg"]
+        if "error" in r:
+            violation(ctx, "converts", "C09 fails on the real code: an accepted configuration does not run: %s (%s)" % (r["error"], S.cfg_label(c)), {"stage": "converts-typed", "cfg": c, "result": r})
+            continue
+        double = r["engine"] in ("cr64", "cr64s")
+        fs = {2: 2.0 ** 31, 3: 32768.0}[c["otype"] & 3]
+        # rounding to the type (+ 1 LSB of dither for int16) + what the engine's own precision leaves of the full-scale factor it folds in
+        tol = 0.51 + (1.0 if (c["otype"] & 3) == 3 and not c["ioflags"] & 8 else 0.0) + 0.5 * fs * 2.0 ** (-50 if double else -20)
+        ctx.hist("dist_converts_typed", "%s/%s/%s" % (r["engine"], {2: "i32", 3: "i16"}[c["otype"] & 3], "dither" if not c["ioflags"] & 8 else "nodither"))
+        if r["frames"][0] != r["frames"][1] or max(r["err_lsb"]) > tol:
+            violation(ctx, "converts", "C09 fails on the real code: soxr_create accepted the I/O spec but the typed output is not the resampled signal: per channel, "
+                      "max |typed - float64 output of the same configuration| = %s LSB (allowed %.3g), frames %s (%s ch=%d split=%s ioflags=%s, engine %s)"
+                      % (["%.4g" % e for e in r["err_lsb"]], tol, r["frames"], S.cfg_label(c), c["ch"], c["split"], c["ioflags"], r["engine"]),
+                      {"stage": "converts-typed", "cfg": c, "result": {k: v for k, v in r.items() if k != "cfg"}})
+
+
 def run(ctx):
     broken = common.proof_stage(ctx, ["SoxrModel.Properties.C09"], "C09", exes=("soxr_config", "soxrmodel"), gens=("Config",))
     known = {f["id"]: f for f in common.known_active(PID)}
@@ -964,6 +1021,7 @@ def run(ctx):
     stage_thresholds(ctx, 400 if ctx.quick else 6000, known)
     stage_planner(ctx, 1500 if ctx.quick else 40000)
     stage_converts(ctx, 144 if ctx.quick else 3600)
+    stage_converts_typed(ctx, 60 if ctx.quick else 1500)
     stage_pinned(ctx, exe, known)
     ctx.cov["rule"] = ("generated soxr_create calls over the product space (rates: audio / small integers / 1e-300..1e300 decades / the 2^31 factor bound / "
                        "big up-sampling / zeros, signs, non-finite, overflowing quotients; channels 0..300; recipes 0..15 x phase bits x steep x flag words; "
